@@ -325,6 +325,10 @@ def message_received(h):
     h.oblige("a matching message marks a response, any other message does not", h.eq(ev.flag, matcher == 1))
 
 
+START_ATOMIC = ("start completes without suspending (the last handshake step relies on it: it creates the AT4 poll task and marks the "
+                "object initialised right after awaiting start, with no look at what happened meanwhile)")
+
+
 @oset("heartbeat.start-stop", ["C08", "C15"], [M + "start", M + "stop"],
       trusted=["task.cancel(); await task leaves the task finished (none of the loops catches CancelledError)"])
 def start_stop(h):
@@ -332,7 +336,7 @@ def start_stop(h):
         from replay import more_scenarios as MS
         return MS.oblige_from(h, [MS.heartbeat_scenarios], {
             "stop raises nothing", "a second stop has no effect", "stop forgets the tasks and unsubscribes",
-            "start creates the heartbeat task and the timeout task", "a second start has no effect"})
+            "start creates the heartbeat task and the timeout task", "a second start has no effect", START_ATOMIC})
     it = h.it
     w, sock, cfg, mgr, msg, matcher, _ = _manager(h)
     h.oblige("constructing a manager has no effect on the socket or the loop (no subscription, no task): everything starts with start()",
@@ -342,8 +346,10 @@ def start_stop(h):
              And(h.attr(mgr, "_response_received") is not h.attr(mgr_b, "_response_received"),
                  h.attr(mgr, "_heartbeat_tasks") is not h.attr(mgr_b, "_heartbeat_tasks")))
     it.path.events.clear()
+    s0 = w.suspensions
     r = h.method(mgr, "start")
     h.oblige("start raises nothing", r.ok)
+    h.oblige(START_ATOMIC, w.suspensions == s0)
     tasks = [e[1] for e in it.path.events if e[0] == "create_task"]
     names = sorted(t.coro.func.name for t in tasks if isinstance(t.coro, Coroutine))
     h.oblige("start creates the heartbeat task and the timeout task", names == ["_heartbeat_loop", "_heartbeat_timeout_loop"])
